@@ -139,9 +139,9 @@ def pretty_cex(cex_text, nm):
             out.append({"kind": "operation is not atomic",
                         "schedule": ["one goroutine has executed: " + "; ".join(e1),
                                      "its next events are: " + "; ".join(e2),
-                                     "the first of them touches guarded state outside the single writer-lock section of the "
-                                     "operation (or after the publishing store): another writer can run in between -> lost "
-                                     "update / torn view"]})
+                                     "the first of them touches guarded state outside the writer-lock section of the "
+                                     "operation (or publishes twice / looks at the pointer again after publishing): another "
+                                     "writer can run in between -> lost update / torn view"]})
     # at most two schedules of each kind, no repetitions
     seen, per_kind, res = set(), {}, []
     for c in out:
